@@ -4,6 +4,7 @@ import FFS.Driver.Tx
 import FFS.Driver.Eth
 import FFS.Driver.Abi
 import FFS.Driver.AbiCodec
+import FFS.Driver.AbiEntry
 open Lean FFS FFS.Driver
 
 def dispatch (op : String) (j : Json) : Json :=
@@ -28,6 +29,10 @@ def dispatch (op : String) (j : Json) : Json :=
   | "abi.encode" => opAbiEncode j
   | "abi.roundtrip" => opAbiRoundtrip j
   | "abi.decode" => opAbiDecode j
+  | "abi.entry" => opAbiEntry j
+  | "abi.calldata" => opAbiCalldata j
+  | "abi.event" => opAbiEvent j
+  | "abi.error" => opAbiError j
   | _ => Json.mkObj [("bad", "op")]
 
 partial def loop (hin : IO.FS.Stream) (hout : IO.FS.Stream) : IO Unit := do
